@@ -314,10 +314,21 @@ def r7(rr, repo):
         fv = [v.value for v in n.value.values if isinstance(v, ast.FormattedValue)]
         host, port = fv[0], fv[1] if len(fv) > 1 else None
         okh = isinstance(host, ast.IfExp) and q.const_str(host.body) and host.body.value == 'localhost' and isinstance(host.orelse, ast.Name)
+        # ... and the wildcard test has the right sense: `<host>[:1] in '*0'` selects localhost
+        if okh:
+            t = host.test
+            okh = isinstance(t, ast.Compare) and len(t.ops) == 1 and isinstance(t.ops[0], ast.In) and q.const_str(t.comparators[0]) is not None and {'*', '0'} <= set(t.comparators[0].value) and \
+                U(t.left) == f'{U(host.orelse)}[:1]'
         rr.ob("a wildcard bind host ('*', '0...') is replaced by localhost, any other host is kept", okh, cmod, n, witness=U(host)[:80], key='conv-host')
         # port comes from the same split as the host
         sp = [a for a in walk_scope(pf) if isinstance(a, ast.Assign) and isinstance(a.targets[0], ast.Tuple) and port is not None and U(port) in [U(e) for e in a.targets[0].elts] and 'rsplit' in U(a.value)]
         okp = bool(sp) and "+ ['5550']" in U(sp[0].value) and "rsplit(':', 1)" in U(sp[0].value) and U(sp[0].value).endswith('[:2]')
+        # what is split is the output without its scheme: the slice starts at len('tcp://') under a startswith('tcp://') test
+        if sp:
+            cut = [x for x in ast.walk(sp[0].value) if isinstance(x, ast.Subscript) and isinstance(x.slice, ast.Slice) and x.slice.upper is None and isinstance(x.slice.lower, ast.Constant) and isinstance(x.slice.lower.value, int) and x.slice.lower.value > 2]
+            pre = [q.const_str(c.args[0]) for t, pol in q.guards_of(sp[0], stop=pf) if pol for c in ast.walk(t) if isinstance(c, ast.Call) and isinstance(c.func, ast.Attribute) and c.func.attr == 'startswith' and c.args and q.const_str(c.args[0])]
+            rr.ob("the host:port text is the output with exactly its scheme cut off (slice start == len of the prefix tested with startswith)", len(cut) == 1 and len(pre) == 1 and cut[0].slice.lower.value == len(pre[0]), cmod, sp[0],
+                  witness=f'slice start {[c.slice.lower.value for c in cut]}, prefix tested {pre}', key='conv-scheme-cut')
         rr.ob("the port is the text after the last ':' of the user's output, 5550 when none is written", okp, cmod, sp[0] if sp else n, witness=U(sp[0].value)[:100] if sp else '', key='conv-port')
     # the default literal equals zeromq's default port (C12.R1 checks the scan's literal the same way)
     # 2. allocated outputs: bind and connect addresses agree
@@ -385,6 +396,12 @@ def r9(rr, repo):
         recorded = used is not None and any(isinstance(c, ast.Call) and U(c.func) == f'{used}.add' and U(c.args[0]) == tgt for n in after for c in ast.walk(n))
         fed = used is not None and any(isinstance(c, ast.Call) and U(c.func) == f'{used}.add' and q.enclosing_stmt(c).lineno < st.lineno and any('ipc://' in U(t) for t, pol in q.guards_of(c, stop=pf)) for c in q.calls_in(pf))
         rr.ob("the allocated ipc name is looked up in the set of ipc outputs already bound (and changed or refused on a clash)", used is not None, mod, st, witness=f'{U(st)[:80]}; looked up in: {used}', key='ipc-alloc-checked')
+        loops = [n for n in after if isinstance(n, ast.While) and isinstance(n.test, ast.Compare) and U(n.test.left) == tgt]
+        for lp in loops:
+            changes = any((isinstance(x, ast.AugAssign) and U(x.target) == tgt) or (isinstance(x, ast.Assign) and any(U(t_) == tgt for t_ in x.targets)) for x in ast.walk(lp) if x is not lp)
+            rr.ob('on a clash the loop picks a different name (it changes the candidate on every round)', changes, mod, lp, witness=U(lp)[:100], key='ipc-alloc-loop-progresses')
+        sense = [(U(t), pol) for t, pol in q.guards_of(st, stop=pf) if U(t) == 'ipc']
+        rr.ob('an ipc name is allocated exactly when --ipc is on (the tcp allocation is the other branch)', sense == [('ipc', True)], mod, st, witness=str(sense), key='ipc-alloc-branch')
         if used is not None:
             rr.ob('that set holds the user-given ipc outputs and every earlier allocation', recorded and fed, mod, st, witness=f'user-given ipc outputs added: {fed}; allocation recorded: {recorded}', key='ipc-alloc-set-complete')
 
@@ -417,3 +434,23 @@ def r10(rr, repo):
                         keys |= {q.const_str(e) for e in a.iter.elts if q.const_str(e)}
     rr.ob("a numeric id and a numeric source are turned into text before ids are looked up", {'id', 'sources'} <= keys, mod, convs[0] if convs else table[0],
           witness=f'keys converted with str() before config_by_id is built: {sorted(keys) or "none"}', key='ids-are-text')
+
+
+@rule('C12.R11', "what the user wrote is passed through: the configuration handed back for each filter holds every key of the wired configuration - the reordering for display splits the keys into those of the preferred "
+                 "order that are present and all the others, and puts both parts back")
+def r11(rr, repo):
+    mod, pf = repo.find(f'{CLI}::parse_filters')
+    outs = [c for c in ast.walk(pf) if isinstance(c, ast.Call) and U(c.func) == 'FilterConfig' and c.args and isinstance(c.args[0], ast.Dict) and all(k is None for k in c.args[0].keys)]
+    rr.floor('reconstructions of the returned configuration', len(outs), 1, mod, pf)
+    for c in outs:
+        parts = c.args[0].values
+        first = [p for p in parts if isinstance(p, ast.DictComp) and len(p.generators) == 1 and U(p.generators[0].iter) == 'PARAM_ORDER']
+        rest = [p for p in parts if isinstance(p, ast.DictComp) and len(p.generators) == 1 and U(p.generators[0].iter) == 'config.items()']
+        ok1 = len(first) == 1 and U(first[0].value) == f'config[{U(first[0].key)}]' and [U(i).replace(' ', '') for i in first[0].generators[0].ifs] == [f'{U(first[0].key)}inconfig']
+        ok2 = len(rest) == 1 and isinstance(rest[0].generators[0].target, ast.Tuple) and U(rest[0].key) == U(rest[0].generators[0].target.elts[0]) and U(rest[0].value) == U(rest[0].generators[0].target.elts[1]) and \
+            [U(i).replace(' ', '') for i in rest[0].generators[0].ifs] == [f'{U(rest[0].key)}notinPARAM_ORDER']
+        if len(parts) == 2 and first and rest:
+            rr.ob('the preferred-order part takes exactly the preferred keys that are present, with their values', ok1, mod, first[0], witness=U(first[0])[:100], key='passthrough-ordered-part')
+            rr.ob('the remaining part takes exactly the keys that are not in the preferred order, with their values', ok2, mod, rest[0], witness=U(rest[0])[:100], key='passthrough-rest-part')
+        else:
+            rr.unresolved('the returned configuration is rebuilt in a way this rule does not know', mod, c, witness=U(c)[:120], key='passthrough-form')
